@@ -212,35 +212,36 @@ theorem deliver_good {σ} {cfg : DevCfg σ} (hpos : cfg.tsm.TimeoutsPos) {s : De
   exact appPass_good hpos _ _ ((hg.step hpos (.frame p a) rfl).congr rfl)
 
 theorem recv_good {σ} {cfg : DevCfg σ} (hpos : cfg.tsm.TimeoutsPos) {s : DevState σ} (hg : Good s)
-    (src f : Bytes) : Good (recv cfg s src f).1 := by
+    (src : Bytes) (bcast : Bool) (f : Bytes) : Good (recv cfg s src bcast f).1 := by
   unfold recv
   split
   · exact hg
-  · dsimp only
-    split
-    · exact hg.congr rfl
-    · split
+  · split
+    · exact hg
+    · dsimp only
+      split
+      · exact hg.congr rfl
       · split
-        · exact hg.congr rfl
         · split
           · exact hg.congr rfl
+          · split
+            · exact hg.congr rfl
+            · exact hg.congr rfl
+        · split
           · exact hg.congr rfl
-      · split
-        · exact hg.congr rfl
-        · dsimp only
-          refine deliver_good hpos ?_ _ _
-          exact hg.congr rfl
+          · dsimp only
+            refine deliver_good hpos ?_ _ _
+            exact hg.congr rfl
 
 theorem recvAll_good {σ} {cfg : DevCfg σ} (hpos : cfg.tsm.TimeoutsPos) :
-    ∀ (fs : List (Bytes × Bytes)) {s : DevState σ}, Good s → Good (recvAll cfg s fs).1 := by
+    ∀ (fs : List Dgram) {s : DevState σ}, Good s → Good (recvAll cfg s fs).1 := by
   intro fs
   induction fs with
   | nil => intro s hg; exact hg
   | cons x xs ih =>
     intro s hg
-    obtain ⟨src, f⟩ := x
     simp only [recvAll]
-    exact ih (recv_good hpos hg src f)
+    exact ih (recv_good hpos hg x.src x.bcast x.octets)
 
 /-! ### outputs that never reach the application -/
 
